@@ -7,11 +7,12 @@ From V Require Import base.Cal rstr.RstrPrim rstr.RstrModel.
 Import ListNotations.
 Open Scope Z_scope.
 
-Inductive gexc := XValue | XKey | XAttr | XIndex | XOverflow | XUnm.
+Inductive gexc := XValue | XKey | XAttr | XIndex | XOverflow | XType | XUnm.
 (* XUnm is not a Python exception: the input left the modelled fragment (date forms) *)
 Definition gexc_eqb (a b : gexc) : bool :=
   match a, b with
-  | XValue, XValue | XKey, XKey | XAttr, XAttr | XIndex, XIndex | XOverflow, XOverflow | XUnm, XUnm => true
+  | XValue, XValue | XKey, XKey | XAttr, XAttr | XIndex, XIndex | XOverflow, XOverflow | XType, XType
+  | XUnm, XUnm => true
   | _, _ => false
   end.
 
@@ -55,7 +56,7 @@ Fixpoint g_lookup (tbl : list (str * Z)) (k : str) : gres Z :=      (* dict[k]: 
   | [] => GExc XKey
   | (n, v) :: r => if leqb n k then GOk v else g_lookup r k
   end.
-Definition g_nth (l : list str) (i : nat) : gres str :=              (* list[i]: IndexError *)
+Definition g_nth {A : Type} (l : list A) (i : nat) : gres A :=        (* list[i]: IndexError *)
   match nth_error l i with Some x => GOk x | None => GExc XIndex end.
 (* weekdays[idx](n): tuple index, then weekday.__call__ (n == 0 raises ValueError) *)
 Definition g_weekday (idx : Z) (n : option Z) : gres wd :=
@@ -93,5 +94,25 @@ Definition gres_res {A : Type} (r : gres A) : res A :=
   match r with
   | GOk a => Ok a
   | GExc XUnm => Err EUnmodelled
+  | GExc XType => Err EType
   | GExc _ => Err EValue
+  end.
+
+(* results of hand-modelled (AST-pinned) methods called from translated code *)
+Definition g_of_res {A : Type} (r : res A) : gres A :=
+  match r with
+  | Ok a => GOk a
+  | Err EUnmodelled => GExc XUnm
+  | Err EType => GExc XType
+  | Err EIndex => GExc XIndex
+  | Err EValue => GExc XValue
+  end.
+
+(* what rrulestr returns / raises *)
+Definition result_of_gres (r : gres result) : result :=
+  match r with
+  | GOk x => x
+  | GExc XUnm => RErr EUnmodelled
+  | GExc XType => RErr EType
+  | GExc _ => RErr EValue
   end.
